@@ -27,7 +27,7 @@ pub fn run(ctx: &Ctx) -> i32 {
     let prop: &'static str = if ctx.prop == "C13" { "C13" } else { "C17" };
     let engine = ReqEngine { prop };
     if let Some(path) = &ctx.replay {
-        return match read_replay(path).and_then(|rf| if rf.engine == "tlsstack" { crate::props::stack::replay(ctx, "C13", &rf) } else if rf.engine == "netsim" { replay_one(ctx, &crate::props::net::NetEngine { prop: "C13" }, &rf) } else if rf.engine == "tlswire" { replay_one(ctx, &TlsPanics, &rf) } else { replay_one(ctx, &engine, &rf) }) {
+        return match read_replay(path).and_then(|rf| if rf.engine == "poolsim" { replay_one(ctx, &crate::engines::poolsim::PoolEngine { prop: "C17", nontrivial: |_| true, phases: crate::engines::poolsim::Phases { drain: true, probe: true } }, &rf) } else if rf.engine == "tlsstack" { crate::props::stack::replay(ctx, "C13", &rf) } else if rf.engine == "netsim" { replay_one(ctx, &crate::props::net::NetEngine { prop: "C13" }, &rf) } else if rf.engine == "tlswire" { replay_one(ctx, &TlsPanics, &rf) } else { replay_one(ctx, &engine, &rf) }) {
             Ok(c) => c,
             Err(e) => {
                 eprintln!("replay failed: {e}");
@@ -45,6 +45,14 @@ pub fn run(ctx: &Ctx) -> i32 {
         total.merge(run_generated(ctx, &e2e, "netsim-redirect-hops", || crate::props::net::c13_e2e_strategy(5), ctx.cases(4_000, 200_000), 300));
     }
     if prop == "C17" {
+        // pool histories with failing dials and handshakes: nothing may poll a finished connect or
+        // handshake future again (a real transport future panics when that happens, in a spawned task)
+        {
+            use crate::engines::poolsim as ps;
+            let pool_engine = ps::PoolEngine { prop: "C17", nontrivial: |c| c.iter().any(|x| *x == "waiter-present-when-dial-failed" || *x == "cancel-while-dialing" || *x == "dial-preempted"), phases: ps::Phases { drain: true, probe: true } };
+            let wt = ps::Weights { dial_fail: 8, hs_fail: 6, cancel: 6, ..ps::GENERIC };
+            total.merge(run_generated(ctx, &pool_engine, "poolsim-failing-attempts", move || ps::case_strategy(wt, 40, ps::cfg_any_strategy()), ctx.cases(40_000, 1_500_000), 2000));
+        }
         // TLS transport leg: the tlswire cases, only panics count here
         total.merge(run_generated(ctx, &TlsPanics, "tls-transport", crate::engines::tlswire::strategy, ctx.cases(20_000, 600_000), 300));
     }
@@ -63,7 +71,8 @@ pub fn run(ctx: &Ctx) -> i32 {
     } else {
         (
             "same request grammar as C13 (every http::Version constant, standard and extension methods incl. CONNECT, absolute/origin/authority/asterisk URI forms, DNS/IPv4/bracketed IPv6/unusual hosts, header sets, bodies) sent through the check layers, ConnectionPoolService with and without pool, ConnectorService and the real connection builder; every panic recorded by the process-wide hook with a location inside /repo (also when a runtime caught it in a spawned task) is a violation; debug assertions are on. non-trivial as for C13",
-            vec![("unusual-version", 0.1), ("connect", 0.1), ("origin-form", 0.1), ("asterisk-form", 0.05), ("authority-form", 0.05)],
+            // fractions over all legs; the request-grammar leg is half of the evaluations
+            vec![("unusual-version", 0.05), ("connect", 0.05), ("origin-form", 0.05), ("asterisk-form", 0.02), ("authority-form", 0.02), ("waiter-present-when-dial-failed", 0.003)],
         )
     };
     finish(
